@@ -19,6 +19,7 @@ class SystemClockLoopTest {
     static void setState(SystemClock& c, acetime_t e, uint16_t p, bool init) {
       c.mEpochSeconds = e; c.mPrevMillis = p; c.mIsInit = init;
     }
+    static void setLastSync(SystemClock& c, acetime_t l) { c.mLastSyncTime = l; }
     static acetime_t epoch(const SystemClock& c) { return c.mEpochSeconds; }
     static uint16_t prev(const SystemClock& c) { return c.mPrevMillis; }
     static acetime_t lastSync(const SystemClock& c) { return c.mLastSyncTime; }
@@ -114,8 +115,12 @@ ENTRY(c13_reset_then_read) {
   __verif_assume(e != Clock::kInvalidSeconds && T2 != Clock::kInvalidSeconds && T2 <= 2147483647 - 70);
   __verif_assume(g >= (uint32_t) a0 && g <= (uint32_t) a1);
   SystemClockLoopTest::setState(c, e, p, true);
+  // the value of the previous successful set is part of the state too (any earlier set may have left it; in particular
+  // it may equal T2 while the clock has advanced past it)
+  SystemClockLoopTest::setLastSync(c, __verif_nondet_i32("lastSync"));
   gMillis = m1;
   c.setNow(T2);
+  __verif_assert(SystemClockLoopTest::lastSync(c) == T2, "lastSyncTime is the value just set");
   gMillis = m1 + g;
   acetime_t now = c.getNow();
   if (e == T2) {
